@@ -21,14 +21,16 @@ pub struct ProbeSpec {
     pub policy: Vec<React>,
     /// reaction once the table is exhausted
     pub rest: React,
+    /// the probe stops pulling after this many Pulls (keeps runs over unbounded sources finite)
+    pub pull_cap: usize,
 }
 
 impl ProbeSpec {
     pub fn passive() -> Self {
-        ProbeSpec { policy: vec![], rest: React::Nothing }
+        ProbeSpec { policy: vec![], rest: React::Nothing, pull_cap: 1000 }
     }
     pub fn puller() -> Self {
-        ProbeSpec { policy: vec![], rest: React::Pull }
+        ProbeSpec { policy: vec![], rest: React::Pull, pull_cap: 1000 }
     }
 }
 
@@ -56,7 +58,7 @@ impl<T: Repr + Send + Sync + 'static> Probe<T> {
     pub fn new(world: &Arc<World>, idx: usize, output_label: &str, spec: ProbeSpec) -> Arc<Self> {
         let edge = world.new_edge(Role::Probe(idx as u16), format!("S{}", idx), output_label, "probe");
         let err: DynErr = Arc::new(ProbeError(idx));
-        let err_id = world.register_err(&err);
+        let err_id = world.register_err(&err, "S");
         Arc::new(Probe {
             idx,
             edge,
@@ -130,6 +132,11 @@ impl<T: Repr + Send + Sync + 'static> Probe<T> {
     /// Perform an action if (and only if) a conformant sink may perform it now.
     pub fn act(self: &Arc<Self>, r: React) -> bool {
         if r == React::Nothing || !self.can_act() {
+            return false;
+        }
+        if matches!(r, React::Pull | React::Pull2)
+            && self.world.with_edge(self.edge, |e| e.pulls_up) as usize >= self.spec.pull_cap
+        {
             return false;
         }
         let tb = match self.talkback.lock().unwrap().clone() {
